@@ -27,6 +27,7 @@ pub fn def() -> CheckDef {
         cpu_limit_s: 30,
         fault_kinds: "F-CR at every operation boundary (enumerated per history); fork + continue",
         count_subruns: false,
+        expect_probes: &["fork_runs"],
     }
 }
 
